@@ -264,7 +264,7 @@ def run(chk):
 
     # ---- the record framing the unformatted reader relies on (rules of C07, run here because a cut-short file must raise, not
     # yield wrong data): head/tail markers, payload, byte order
-    class Only:
+    class Only_unused:
         def __init__(self, chk_, allow):
             self.__dict__["c"] = chk_
             self.__dict__["allow"] = allow
@@ -292,6 +292,6 @@ def run(chk):
             if rid in self.allow:
                 self.c.info(rid, *a, **kw)
     import rules.C07 as c07
-    c07.run(Only(chk, {"C07.bracket", "C07.payload", "C07.hdr", "C07.flip"}))
+    c07.run(core.Only(chk, {"C07.bracket", "C07.payload", "C07.hdr", "C07.flip"}))
 
     chk.assumptions += ["header widths are joined with the writer via rules/C07.header_sums (T-agree between modules)"]
